@@ -16,6 +16,9 @@ structure CS where
 inductive CEv
   /-- `Reader.SetOffset(o)` (also the lazy start of the first fetcher at the configured offset) -/
   | setOffset (o : Int)
+  /-- `Reader.SetOffset(LastOffset)` (or the start of a Reader configured with it).  `l` is the log end the broker will
+  report to this fetcher at its first successful `initialize` (see `CEv.okAt`): that is where it starts. -/
+  | setOffsetLast (l : Int)
   /-- a blocking call of fetcher `t`'s loop returns: whatever the world does -/
   | env (t : Nat) (x : Env)
   /-- `Reader.FetchMessage` -/
@@ -40,6 +43,10 @@ def cstep (cfg : RCfg) (items : List Item) (c : CS) : CEv → Option (CS × Opti
     match fstep (allRecords items) c.fs (.setOffset o) with
     | none => none
     | some (fs', m) => some ({ fs := fs', loops := (c.fs.version + 1, { offset := o }) :: c.loops }, m)
+  | .setOffsetLast l =>
+    match fstep (allRecords items) c.fs (.setOffset l) with
+    | none => none
+    | some (fs', m) => some ({ fs := fs', loops := (c.fs.version + 1, { offset := -1 }) :: c.loops }, m)
   | .env t x =>
     match lookupLoop t c.loops with
     | none => none
@@ -64,11 +71,24 @@ def crun (cfg : RCfg) (items : List Item) : CS → List CEv → Option (CS × Li
 
 def CEv.ok (items : List Item) : CEv → Prop
   | .setOffset o => -2 ≤ o ∧ o ≠ -1          -- an absolute offset or FirstOffset
+  | .setOffsetLast _ => True
   | .env _ x => x.ok items
   | .fetch => True
 
+/-- the meaning of `l` in `setOffsetLast l`: while a fetcher started at LastOffset has not yet connected, a successful
+`initialize` of it reports `l` as the last offset -/
+def CEv.okAt (c : CS) : CEv → Prop
+  | .env t (.initOk _ l) =>
+    ∀ s, lookupLoop t c.loops = some s → s.start = none → s.offset = -1 → ∀ g ∈ c.fs.fetchers, g.tag = t → l = g.start
+  | _ => True
+
+def OkRun (cfg : RCfg) (items : List Item) : CS → List CEv → Prop
+  | _, [] => True
+  | c, e :: es => e.ok items ∧ e.okAt c ∧ ∀ c' m, cstep cfg items c e = some (c', m) → OkRun cfg items c' es
+
 def CEv.notSet : CEv → Prop
   | .setOffset _ => False
+  | .setOffsetLast _ => False
   | _ => True
 
 
@@ -81,34 +101,41 @@ a message of the current version sets `r.offset = m.Offset + 1`. -/
 structure AS where
   c : CS := {}
   pos : Int            -- r.offset, what `Reader.Offset()` returns
+  closed : Bool := false   -- r.closed
 
 inductive AEv
   | setOffset (o : Int)
   | env (t : Nat) (x : Env)
   | fetch
+  /-- `Reader.Close`: from now on SetOffset fails with io.ErrClosedPipe and FetchMessage returns io.EOF right away —
+  nothing is handed out any more, whatever is still queued; the loops wind down (their steps stay possible) -/
+  | close
   deriving Repr
 
 def astep (cfg : RCfg) (items : List Item) (a : AS) : AEv → Option (AS × Option Rec)
+  | .close => some ({ a with closed := true }, none)
   | .setOffset o =>
-    if o = a.pos then some (a, none)
+    if a.closed then some (a, none)          -- io.ErrClosedPipe
+    else if o = a.pos then some (a, none)
     else if a.c.fs.version = 0 then some ({ a with pos := o }, none)
     else match cstep cfg items a.c (.setOffset o) with
       | none => none
-      | some (c', _) => some ({ c := c', pos := o }, none)
+      | some (c', _) => some ({ a with c := c', pos := o }, none)
   | .env t x =>
     match cstep cfg items a.c (.env t x) with
     | none => none
     | some (c', _) => some ({ a with c := c' }, none)
   | .fetch =>
     -- the locked section of FetchMessage (lazy start) and the receive from r.msgs are two steps
-    if a.c.fs.version = 0 then
+    if a.closed then some (a, none)          -- io.EOF
+    else if a.c.fs.version = 0 then
       match cstep cfg items a.c (.setOffset a.pos) with
       | none => none
       | some (c', _) => some ({ a with c := c' }, none)
     else
       match cstep cfg items a.c .fetch with
       | none => none
-      | some (c2, m) => some ({ c := c2, pos := match m with | some r => r.1 + 1 | none => a.pos }, m)
+      | some (c2, m) => some ({ a with c := c2, pos := match m with | some r => r.1 + 1 | none => a.pos }, m)
 
 def arun (cfg : RCfg) (items : List Item) : AS → List AEv → Option (AS × List Rec)
   | a, [] => some (a, [])
@@ -124,5 +151,6 @@ def AEv.ok (items : List Item) : AEv → Prop
   | .setOffset o => -2 ≤ o ∧ o ≠ -1
   | .env _ x => x.ok items
   | .fetch => True
+  | .close => True
 
 end KV.C02
